@@ -152,3 +152,15 @@ pub fn query(region: Region, search_filters: Option<SearchFilters>) -> GDResult<
 
     master_server.query(region, search_filters)
 }
+
+/// Verification unit ports (compiled only with `--cfg gamedig_verif`).
+#[cfg(gamedig_verif)]
+pub mod verif_unit {
+    use super::*;
+
+    pub fn construct_payload(region: Region, filters: &Option<SearchFilters>, last_ip: &str, last_port: u16) -> Vec<u8> {
+        super::construct_payload(region, filters, last_ip, last_port)
+    }
+
+    pub fn filters_to_bytes(filters: &SearchFilters) -> Vec<u8> { filters.to_bytes() }
+}
